@@ -110,6 +110,10 @@ func (v *PacketDslVisitorImpl) VisitPacket(ctx *gen.PacketContext) interface{} {
 			if option.Value().STRING() != nil {
 				value = strings.Trim(value, "\"")
 			}
+			if t := option.Value().Type_(); t != nil && t.BasicType() != nil {
+				// uint16 and u16 are the same type
+				value = model.BasicFieldAttribute{Type: value}.GetType()
+			}
 			if value == "'\\x00'" {
 				// the NUL pad character, as the padding attributes store it
 				value = "'\x00'"
